@@ -22,6 +22,7 @@ def plan(tier, seed):
         jobs.append(ch("C07", "vf/pyshim/h_v2.py", h, t, ["core.read_col (dictionary page of each row group; shared "
                                                           "categorical output)"], env=envc))
     jobs.append(ch("C07", "vf/pyshim/h_partfile.py", "h_make_part_file", t, ["writer.make_part_file"]))
+    jobs.append(ch("C07", "vf/pyshim/h_c06.py", "h_range_index", t, ["api.ParquetFile.pre_allocate (row labels after appends)"]))
     from . import cats
     jobs += cats.jobs("C07", tier)
     jobs.append(ch("C07", "vf/pyshim/h_wc.py", "h_cat_dictionary", t,
